@@ -273,7 +273,7 @@ def run(ctx):
     r3.need(5)
 
     # ---------------- R10.4 skipping adaptors inside _iter
-    r4 = ctx.rule('R10.4', 'adaptors that can discard unboundedly many items per step are budgeted, call a user function per item, or run over a finite outer')
+    r4 = ctx.rule('R10.4', 'adaptors that can discard unboundedly many items per step are budgeted (zipped with the search budget or taking a permit per examined item) or run over a finite outer')
     GEN = 'builtin::generators::XGenerator'
     SKIPPING = {'skip', 'skip_while', 'filter', 'filter_map', 'flatten', 'flat_map', 'step_by', 'find', 'find_map', 'position', 'last', 'nth'}
     fam = [b for b in mir.bodies if b.nid == GEN + '::_iter' or b.nid.startswith(GEN + '::_iter::{closure')]
@@ -291,16 +291,21 @@ def run(ctx):
                 # e.g. flat_map over the slice of parts: finite outer, lazy inner
                 r4.inst({'body': b.id, 'site': mirq.site(b, bb), 'adaptor': meth, 'class': 'finite outer (%s)' % base[:40]}, kind=(b.id, bb))
                 continue
-            # does the adaptor's closure call a user function per item (bounded by the call limit)?
-            calls_user = False
+            # does the adaptor's closure take a search permit for the items it examines?  (Calling the program's function per item is
+            # not a bound: the function value may be a native one -- filter(not{bool}) -- which the call limit does not count.)
+            takes_permit = False
             for a in t['args'][1:]:
                 k, v = mirq.chase_op(b, a)
                 if k == 'rv' and v[2]['rv']['k'] == 'agg' and v[2]['rv'].get('ak') == 'closure':
                     cb = mir.by_id.get(v[2]['rv']['def'])
-                    if cb is not None and any(strip_generics(t2.get('callee') or '') == 'runtime_scope::RuntimeScope::eval_func_with_values' for _, t2 in cb.calls()):
-                        calls_user = True
-            ok = calls_user
-            r4.inst({'body': b.id, 'site': mirq.site(b, bb), 'adaptor': meth, 'per_item_user_call': calls_user}, ok=ok, kind=(b.id, bb))
+                    if cb is not None:
+                        for _, t2 in cb.calls():
+                            if strip_generics(t2.get('decl') or '') == 'std::iter::Iterator::next':
+                                aty2 = (t2.get('argtys') or [''])[0]
+                                if 'RuntimeViolation' in aty2 and re.search(r'Result<\(\), ', aty2):
+                                    takes_permit = True
+            ok = takes_permit
+            r4.inst({'body': b.id, 'site': mirq.site(b, bb), 'adaptor': meth, 'takes_a_search_permit_per_examined_item': takes_permit}, ok=ok, kind=(b.id, bb))
             if not ok:
                 pending.setdefault((b.nid, meth), []).append(mirq.site(b, bb))
     for (nid, meth), sites in sorted(pending.items()):
